@@ -11,7 +11,10 @@ so a forest deeper than `log2 n` would be a `fuel` error of the executed model a
 `usize` overflow of `sz[v] += sz[u]` is not modelled (sizes are bounded by `n`; residue of §6 C05).
 
 A history (`Op` list) runs on a pair of structures (`Sys`): the current one and a saved clone, so
-that `clone` (deep copy of both vectors in Rust, the identity on values here) and `swap` are part
+that `clone` (deep copy of both vectors in Rust, the identity on values here), `swap`, and the two
+directions of `Clone::clone_from` between the two live structures (`cloneFrom`: the saved one is overwritten by
+the current one, `restore`: the current one is rolled back to the saved one; whatever the destination held before
+- fresh, used, shorter, longer - is gone, as std's contract `a.clone_from(&b)` = `a = b.clone()` says) are part
 of the histories the theorem `C05.history_refines` quantifies over.
 -/
 namespace Rlib.Dsu
@@ -91,6 +94,8 @@ inductive Op where
   | reset (n : Nat)
   | clone            -- saved := current.clone()
   | swap             -- exchange current and saved
+  | cloneFrom        -- saved.clone_from(&current)   (std: equivalent to `saved = current.clone()`, may reuse saved's allocations)
+  | restore          -- current.clone_from(&saved)   (roll the structure back to the snapshot; the snapshot stays)
   deriving Repr, DecidableEq
 
 inductive Res where
@@ -128,6 +133,8 @@ def step : Sys → Op → Except Panic (Sys × Res)
   | ⟨cur, saved⟩, .reset n => .ok (⟨reset cur n, saved⟩, .unit)
   | ⟨cur, _⟩, .clone => .ok (⟨cur, cur⟩, .unit)
   | ⟨cur, saved⟩, .swap => .ok (⟨saved, cur⟩, .unit)
+  | ⟨cur, _⟩, .cloneFrom => .ok (⟨cur, cur⟩, .unit)
+  | ⟨_, saved⟩, .restore => .ok (⟨saved, saved⟩, .unit)
 
 /-- a whole history; the first panic ends it. -/
 def run (y : Sys) : List Op → Except Panic (Sys × List Res)
